@@ -273,7 +273,7 @@ func concScenario(variant int) *engine.Scenario {
 		vrt.Join(ts...)
 	}
 	sc.Check = func(x *vrt.Exec) (string, bool, []*engine.Finding) {
-		fs := hk.Generic(x, hk.Opts{Races: true})
+		fs := hk.Generic(x, hk.Opts{})
 		if x.Crash == "" && !x.Deadlock {
 			if got[0] == got[1] {
 				fs = append(fs, &engine.Finding{Sig: "concurrent-duplicates", Msg: fmt.Sprintf("two concurrent presentations of one handshake: accepted=%v/%v, want exactly one", got[0], got[1])})
